@@ -204,13 +204,9 @@ func (w *c18World) c18E2EStep(rt *rapid.T, m *c18Matcher, dials *[]c18Dial, X, Y
 	// the table for the outbound finally used
 	v := w.c18Expect(mode, final.IsReserved(), dst, sn, now)
 	v.Reroute = 0 // the flag is not observable here; the group is
-	allowF1 := vkKnown(c18FindingLiteralPort)
-	took, f1, jerr := c18Judge(v, c18Got{Target: d.Addr, DialIp: res.IsDialIp}, dst, sn, allowF1)
+	took, lpd, jerr := c18Judge(v, c18Got{Target: d.Addr, DialIp: res.IsDialIp}, dst, sn)
 	if jerr != nil {
 		rt.Fatalf("C18 e2e violated: node dialer of group %d received %q (dialIp=%v): %v (%s)\nmodel: dns=%v verified=%v neg=%v", d.Group, d.Addr, res.IsDialIp, jerr, ctx, w.dns[sn.Bare], w.verified, w.neg)
-	}
-	if f1 {
-		vkExcluded(c18UnitE2E, c18FindingLiteralPort)
 	}
 	key := ""
 	if mode != consts.DialMode_Ip && sn.S != "" && !in.IsReserved() {
@@ -225,6 +221,9 @@ func (w *c18World) c18E2EStep(rt *rapid.T, m *c18Matcher, dials *[]c18Dial, X, Y
 	}
 	if in == consts.OutboundControlPlaneRouting {
 		classes = append(classes, "in_control_plane_routing")
+	}
+	if lpd {
+		classes = append(classes, "literal_port_dialIp_false")
 	}
 	vkCase(c18UnitE2E, key, func() any {
 		return map[string]any{"mode": string(mode), "outbound": int(in), "final": int(final), "dst": dst.String(), "sniffed": sn.S, "dialed": d.Addr, "group": d.Group}
